@@ -185,7 +185,7 @@ pub fn run_c13(cfg: &Cfg) -> Report {
             t.st.space("every single-byte-nonzero pattern (16 byte positions x 255 values) and extremes, through all 16 adapters", total * 16, true);
         }
         // random
-        let n = t.cfg.scale(100, 60_000, 2_000_000);
+        let n = t.cfg.scale(100, 400_000, 8_000_000);
         for _ in 0..n {
             let u = if t.rng.chance(1, 2) { t.rng.u128() } else { gen_uint(&mut t.rng, 128) };
             let pre = gen_uint(&mut t.rng, 16) as u16;
@@ -237,9 +237,14 @@ pub fn run_c13(cfg: &Cfg) -> Report {
         });
         rep.stats.merge(s);
     }
-    let mut j = J::obj();
-    j.set("type", J::s("LeU16 { pre: u16, #[serde(with=\"postcard::fixint::le\")] x: u16, post: i32 }")).set("x", J::s("0xABCD")).set("expected", J::s("varint(pre) ++ cd ab ++ varint(zigzag(post))"));
-    rep.stats.samples.push(j);
+    for (x, pre, post) in [(0xABCDu128, 300u16, -7i32), (0x0102_0304_0506_0708_090A_0B0C_0D0E_0F10, 0, 0), (u128::MAX - 1, 65535, i32::MIN)] {
+        let mut j = J::obj();
+        j.set("x", J::s(format!("{:#x}", x))).set("pre", J::i(pre as u64)).set("post", J::i(post as i64));
+        j.set("BeU128 bytes", J::s(hex(&postcard::to_allocvec(&BeU128 { pre, x, post }).unwrap_or_default())));
+        j.set("LeI16 bytes", J::s(hex(&postcard::to_allocvec(&LeI16 { pre, x: x as i16, post }).unwrap_or_default())));
+        j.set("expected", J::s("varint(pre) ++ to_be/le_bytes(x) ++ varint(zigzag(post))"));
+        rep.stats.samples.push(j);
+    }
     rep.rule = "cases = (width/sign, byte order, value, neighbouring varint fields): entire 16-bit domains; every single-byte-nonzero pattern and extremes for all widths; \
                 random 128-bit patterns truncated to every width; bare adapters; thorough adds the entire 32-bit domains. Expected bytes = varint(pre) ++ to_le/be_bytes(x) ++ varint(zigzag(post))."
         .into();
@@ -505,7 +510,7 @@ pub fn run_c20(cfg: &Cfg) -> Report {
     }
     let s = parallel(cfg, 1, |t| {
         let algos = crc_algos();
-        let n = t.cfg.scale(5, 2500, 100_000);
+        let n = t.cfg.scale(5, 15_000, 400_000);
         for i in 0..n {
             if t.cfg.expired() {
                 break;
